@@ -76,8 +76,8 @@ func TestVerifC24_HTTPReplication(t *testing.T) {
 			n := rapid.IntRange(1, 4).Draw(t, label+"_n")
 			var calls []string
 			for j := 0; j < n; j++ {
-				ck := rapid.SampledFrom([]string{"a", "b", "c1", "col-2", "k k", strings.Repeat("L", 1500)}).Draw(t, fmt.Sprintf("%s_c%d", label, j))
-				rk := rapid.SampledFrom([]string{"a", "r1", "row-2", "x:y", strings.Repeat("R", 700)}).Draw(t, fmt.Sprintf("%s_r%d", label, j))
+				ck := rapid.SampledFrom([]string{"a", "b", "c1", "col-2", "k k", strings.Repeat("L", 1500), strings.Repeat("c", 127), strings.Repeat("c", 128), strings.Repeat("c", 129), strings.Repeat("c", 256), strings.Repeat("c", 4096), strings.Repeat("c", 16384)}).Draw(t, fmt.Sprintf("%s_c%d", label, j))
+				rk := rapid.SampledFrom([]string{"a", "r1", "row-2", "x:y", strings.Repeat("R", 700), strings.Repeat("r", 127), strings.Repeat("r", 128), strings.Repeat("r", 255), strings.Repeat("r", 384), strings.Repeat("r", 16383), strings.Repeat("r", 16385)}).Draw(t, fmt.Sprintf("%s_r%d", label, j))
 				calls = append(calls, fmt.Sprintf("Set(%q, f=%q)", ck, rk))
 				if !seenC[ck] {
 					seenC[ck] = true
